@@ -30,7 +30,10 @@ pub struct Monitors {
     pub versions_seen: BTreeMap<u64, [u8; 32]>,
     pub max_snapshot_version: u64,
     pub acked_max: u64,
-    pub violation: Option<MonViolation>,
+    /// first violation per property
+    pub violations: Vec<MonViolation>,
+    /// the property whose check is running: only its violations end a run early
+    pub own: String,
     pub evaluations: u64,
     pub wal_parses: u64,
     pub max_record_len: usize,
@@ -84,8 +87,8 @@ pub fn parse_log(disk: &Disk) -> Result<ParsedLog, String> {
 
 impl Monitors {
     fn flag(&mut self, property: &str, monitor: &str, class: &str, ev: &Ev, message: String) {
-        if self.violation.is_none() {
-            self.violation = Some(MonViolation {
+        if !self.flagged(property) {
+            self.violations.push(MonViolation {
                 property: property.into(),
                 monitor: monitor.into(),
                 step: ev.step,
@@ -97,10 +100,7 @@ impl Monitors {
     }
 
     pub fn on_event(&mut self, disk: &Disk, ev: &Ev) {
-        if self.violation.is_some() {
-            return;
-        }
-        if self.cas_immutable {
+        if self.cas_immutable && !self.flagged("C06") {
             self.check_cas(disk, ev);
         }
         let touches_log = ev.mutating
@@ -158,10 +158,10 @@ impl Monitors {
                 return;
             }
         };
-        if self.wal_wellformed && touches_log {
+        if self.wal_wellformed && touches_log && !self.flagged("C20") {
             self.check_wellformed(&parsed, ev);
         }
-        if self.no_dangling && self.violation.is_none() {
+        if self.no_dangling && !self.flagged("C04") {
             for (k, (h, sz)) in &parsed.logged {
                 let p = format!("db/cas/{}", decode::cas_rel_path(h));
                 match disk.file(&p) {
@@ -270,6 +270,22 @@ impl Monitors {
             self.flag("C20", "MON-wal-wellformed", "logged-state", ev,
                 format!("snapshot ⊕ log decodes to {} keys, which is neither the acknowledged state nor the in-flight operation's result", parsed.logged.len()));
         }
+    }
+
+    pub fn flagged(&self, property: &str) -> bool {
+        self.violations.iter().any(|v| v.property == property)
+    }
+    /// a violation of the property under check exists: the run can stop
+    pub fn fatal(&self) -> bool {
+        self.violations.iter().any(|v| v.property == self.own)
+    }
+    pub fn take_own(&mut self) -> Option<MonViolation> {
+        let i = self.violations.iter().position(|v| v.property == self.own)?;
+        Some(self.violations.remove(i))
+    }
+    pub fn take_foreign(&mut self) -> Option<MonViolation> {
+        let i = self.violations.iter().position(|v| v.property != self.own)?;
+        Some(self.violations.remove(i))
     }
 
     /// harness: an operation has been acknowledged; everything on disk now is acknowledged.
